@@ -10,11 +10,11 @@ namespace C09Lemmas
 open Lin EigenPrims
 variable {K : Type} [Field K] [LinearOrder K] [IsStrictOrderedRing K] (F : FieldFns K)
 
-/-- the shape of the emitted eigenvalue list: `(t, 0)` for a 1x1 block, `(x, z), (x, −z)` with `z ≥ 0` for a 2x2 block -/
+/-- the shape of the emitted eigenvalue list: `(t, 0)` for a 1x1 block, `(x, z), (x, −z)` with `z > 0` for a 2x2 block -/
 inductive ConjBlocks : List (K × K) → Prop
   | nil : ConjBlocks []
   | real (t : K) (l : List (K × K)) : ConjBlocks l → ConjBlocks ((t, 0) :: l)
-  | pair (x z : K) (l : List (K × K)) : 0 ≤ z → ConjBlocks l → ConjBlocks ((x, z) :: (x, -z) :: l)
+  | pair (x z : K) (l : List (K × K)) : 0 < z → ConjBlocks l → ConjBlocks ((x, z) :: (x, -z) :: l)
 
 theorem smax_ge_left (a b : K) : a ≤ @HessEigen.smax K (scOfField F) a b := by
   simp only [HessEigen.smax, ScF.lt]
@@ -28,16 +28,25 @@ theorem smax_ge_right (a b : K) : b ≤ @HessEigen.smax K (scOfField F) a b := b
   · exact le_refl _
   · rename_i h; simp only [decide_eq_true_eq, not_lt] at h; exact h
 
-
-theorem block2_spec (hs : ∀ x : K, 0 ≤ F.sqrt x) (a b c d : K) :
-    ∃ x z : K, 0 ≤ z ∧ @HessEigen.block2 K _ _ _ _ _ (scOfField F) a b c d = ((x, z), (x, -z)) := by
+/-- **an unsplit block is emitted as an exact conjugate pair with STRICTLY positive imaginary part first**: for a sub-diagonal
+    entry `c ≠ 0` and `eps > 0`, whatever `sqrt` returns (the guard `if (!(z > 0)) z = maxval * eps` decides) -/
+theorem block2_pos (heps : 0 < F.eps) (a b c d : K) (hc : c ≠ 0) :
+    ∃ x z : K, 0 < z ∧ @HessEigen.block2 K _ _ _ _ _ (scOfField F) a b c d = ((x, z), (x, -z)) := by
   simp only [HessEigen.block2]
   refine ⟨_, _, ?_, rfl⟩
-  apply mul_nonneg
-  · exact le_trans (abs_nonneg _) (smax_ge_left F _ _)
-  · exact hs _
+  split
+  · rename_i h; simpa [Sc.gt, zero] using h
+  · apply mul_pos _ heps
+    have h1 : |c| ≤ @HessEigen.smax K (scOfField F) (|c|) (|d|) := smax_ge_left F _ _
+    have h2 := smax_ge_right F (|(@TridiagEigen.half K (scOfField F)) * (a - b)|) (@HessEigen.smax K (scOfField F) (|c|) (|d|))
+    exact lt_of_lt_of_le (abs_pos.mpr hc) (le_trans h1 h2)
 
-theorem extract_conj (hs : ∀ x : K, 0 ≤ F.sqrt x) (n : Nat) (t : Mat K) (f i : Nat) :
+theorem extract_cond {n i : Nat} {x : K} (h : ¬ (decide (i + 1 = n) || @Sc.eq K (scOfField F) x (@zero K (scOfField F))) = true) :
+    i + 1 ≠ n ∧ x ≠ 0 := by
+  simp only [ScF.eq, zero, ScF.ofInt, Int.cast_zero, Bool.or_eq_true, decide_eq_true_eq, not_or] at h
+  exact h
+
+theorem extract_conj (heps : 0 < F.eps) (n : Nat) (t : Mat K) (f i : Nat) :
     ConjBlocks (@HessEigen.extract K _ _ _ _ _ (scOfField F) n t f i) := by
   induction f generalizing i with
   | zero => exact ConjBlocks.nil
@@ -48,15 +57,94 @@ theorem extract_conj (hs : ∀ x : K, 0 ≤ F.sqrt x) (n : Nat) (t : Mat K) (f i
     · split
       · have : (@zero K (scOfField F)) = 0 := by simp [zero]
         rw [this]; exact ConjBlocks.real _ _ (ih _)
-      · let _ : Sc K := scOfField F
-        obtain ⟨x, z, hz, he⟩ := block2_spec F hs (t.get i i) (t.get (i + 1) (i + 1)) (t.get (i + 1) i) (t.get i (i + 1))
+      · rename_i _ hcond
+        let _ : Sc K := scOfField F
+        obtain ⟨x, z, hz, he⟩ := block2_pos F heps (t.get i i) (t.get (i + 1) (i + 1)) (t.get (i + 1) i) (t.get i (i + 1)) (extract_cond F hcond).2
         rw [he]
         exact ConjBlocks.pair x z _ hz (ih _)
+
+/-- the emitted list, tied to the block structure of `T` from row `i` on: a row whose sub-diagonal entry below it is `0` (or the
+    last row) emits `(T(i,i), 0)`; an UNSPLIT block (`T(i+1,i) ≠ 0`) emits `(x, z), (x, −z)` with `z > 0` -/
+inductive ConjBlocksAt (n : Nat) (t : Mat K) : Nat → List (K × K) → Prop
+  | nil (i : Nat) : n ≤ i → ConjBlocksAt n t i []
+  | real (i : Nat) (l : List (K × K)) : i < n → (i + 1 = n ∨ @Mat.get K (scOfField F) t (i + 1) i = 0) →
+      ConjBlocksAt n t (i + 1) l → ConjBlocksAt n t i ((@Mat.get K (scOfField F) t i i, 0) :: l)
+  | pair (i : Nat) (x z : K) (l : List (K × K)) : i + 1 < n → @Mat.get K (scOfField F) t (i + 1) i ≠ 0 → 0 < z →
+      ConjBlocksAt n t (i + 2) l → ConjBlocksAt n t i ((x, z) :: (x, -z) :: l)
+
+theorem extract_conjAt (heps : 0 < F.eps) (n : Nat) (t : Mat K) (f i : Nat) (hf : n ≤ i + f) :
+    ConjBlocksAt F n t i (@HessEigen.extract K _ _ _ _ _ (scOfField F) n t f i) := by
+  induction f generalizing i with
+  | zero => exact ConjBlocksAt.nil i (by omega)
+  | succ f ih =>
+    simp only [HessEigen.extract]
+    split
+    · rename_i h; exact ConjBlocksAt.nil i h
+    · rename_i hlt
+      split
+      · rename_i hcond
+        have h0 : (@zero K (scOfField F)) = 0 := by simp [zero]
+        rw [h0]
+        refine ConjBlocksAt.real i _ (by omega) ?_ (ih _ (by omega))
+        simp only [ScF.eq, zero, ScF.ofInt, Int.cast_zero, Bool.or_eq_true, decide_eq_true_eq] at hcond
+        exact hcond
+      · rename_i hcond
+        let _ : Sc K := scOfField F
+        have hc := extract_cond F hcond
+        obtain ⟨x, z, hz, he⟩ := block2_pos F heps (t.get i i) (t.get (i + 1) (i + 1)) (t.get (i + 1) i) (t.get i (i + 1)) hc.2
+        rw [he]
+        exact ConjBlocksAt.pair i x z _ (by omega) hc.2 hz (ih _ (by omega))
+
+/-- row kinds read off the block structure of `T` alone -/
+inductive RowKind where
+  | real | first | second
+  deriving DecidableEq, Repr
+
+/-- the row kinds from row `i` on, by the same walk as `extract` (structure of `T` only) -/
+def kinds (n : Nat) (t : Mat K) : Nat → Nat → List RowKind
+  | 0, _ => []
+  | f + 1, i =>
+    if n ≤ i then []
+    else if i + 1 = n ∨ @Mat.get K (scOfField F) t (i + 1) i = 0 then RowKind.real :: kinds n t f (i + 1)
+    else RowKind.first :: RowKind.second :: kinds n t f (i + 2)
+
+/-- what a row kind means for the emitted value -/
+def kindSign : RowKind → K × K → Prop
+  | .real, w => w.2 = 0
+  | .first, w => 0 < w.2
+  | .second, w => w.2 < 0
+
+/-- **the sign of the emitted imaginary part is the row kind**: `= 0` exactly on 1x1 rows, `> 0` on the first and `< 0` on the
+    second row of every unsplit block -/
+theorem extract_kinds (heps : 0 < F.eps) (n : Nat) (t : Mat K) (f i : Nat) :
+    List.Forall₂ kindSign (kinds F n t f i) (@HessEigen.extract K _ _ _ _ _ (scOfField F) n t f i) := by
+  induction f generalizing i with
+  | zero => exact List.Forall₂.nil
+  | succ f ih =>
+    simp only [HessEigen.extract, kinds]
+    split
+    · exact List.Forall₂.nil
+    · by_cases hc : i + 1 = n ∨ @Mat.get K (scOfField F) t (i + 1) i = 0
+      · have hb : (decide (i + 1 = n) || @Sc.eq K (scOfField F) (@Mat.get K (scOfField F) t (i + 1) i) (@zero K (scOfField F))) = true := by
+          simp only [ScF.eq, zero, ScF.ofInt, Int.cast_zero, Bool.or_eq_true, decide_eq_true_eq]; exact hc
+        rw [if_pos hc, if_pos hb]
+        refine List.Forall₂.cons ?_ (ih _)
+        simp [kindSign, zero]
+      · have hb : ¬ (decide (i + 1 = n) || @Sc.eq K (scOfField F) (@Mat.get K (scOfField F) t (i + 1) i) (@zero K (scOfField F))) = true := by
+          simp only [ScF.eq, zero, ScF.ofInt, Int.cast_zero, Bool.or_eq_true, decide_eq_true_eq]; exact hc
+        rw [if_neg hc, if_neg hb]
+        let _ : Sc K := scOfField F
+        obtain ⟨x, z, hz, he⟩ := block2_pos F heps (t.get i i) (t.get (i + 1) (i + 1)) (t.get (i + 1) i) (t.get i (i + 1)) (not_or.mp hc).2
+        rw [he]
+        refine List.Forall₂.cons ?_ (List.Forall₂.cons ?_ (ih _))
+        · exact hz
+        · show -z < 0
+          exact neg_neg_of_pos hz
 
 theorem cmulReal_field (z : K × K) (s : K) : @HessEigen.cmulReal K _ _ _ (scOfField F) z s = (z.1 * s, z.2 * s) := by
   simp [HessEigen.cmulReal, zero]
 
-theorem conj_scale (s : K) (hs : 0 ≤ s) (l : List (K × K)) (h : ConjBlocks l) :
+theorem conj_scale (s : K) (hs : 0 < s) (l : List (K × K)) (h : ConjBlocks l) :
     ConjBlocks (l.map (fun z => @HessEigen.cmulReal K _ _ _ (scOfField F) z s)) := by
   induction h with
   | nil => exact ConjBlocks.nil
@@ -65,28 +153,12 @@ theorem conj_scale (s : K) (hs : 0 ≤ s) (l : List (K × K)) (h : ConjBlocks l)
     exact ConjBlocks.real _ _ (by simpa [cmulReal_field] using ih)
   | pair x z l hz _ ih =>
     simp only [List.map_cons, cmulReal_field, neg_mul]
-    exact ConjBlocks.pair _ _ _ (mul_nonneg hz hs) (by simpa [cmulReal_field] using ih)
+    exact ConjBlocks.pair _ _ _ (mul_pos hz hs) (by simpa [cmulReal_field] using ih)
 
-open HessEigen in
-/-- when exactly the imaginary part extracted from an unsplit 2x2 block degenerates to `0` -/
-theorem block2_zero_iff (hsz : ∀ x : K, F.sqrt x = 0 ↔ x = 0) (a b c d : K) (hc : c ≠ 0) :
-    let _ : Sc K := scOfField F
-    let p : K := TridiagEigen.half * (a - b)
-    let m := smax (|p|) (smax (|c|) (|d|))
-    (block2 a b c d).1.2 = 0 ↔ (p / m) * (p / m) + (c / m) * (d / m) = 0 := by
-  intro _ p m
-  have hm : 0 < m := by
-    have h1 : |c| ≤ smax (|c|) (|d|) := smax_ge_left F _ _
-    have h2 : smax (|c|) (|d|) ≤ m := smax_ge_right F _ _
-    exact lt_of_lt_of_le (abs_pos.mpr hc) (le_trans h1 h2)
-  show m * F.sqrt (|p / m * (p / m) + c / m * (d / m)|) = 0 ↔ _
-  rw [mul_eq_zero, hsz, abs_eq_zero]
-  constructor
-  · rintro (h | h)
-    · exact absurd h (ne_of_gt hm)
-    · exact h
-  · intro h; exact Or.inr h
-
+theorem conj_replicate (n : Nat) : ConjBlocks (List.replicate n ((0 : K), (0 : K))) := by
+  induction n with
+  | zero => exact ConjBlocks.nil
+  | succ n ih => rw [List.replicate_succ]; exact ConjBlocks.real 0 _ ih
 
 theorem maxAbs1_nonneg (v : Vec K) : 0 ≤ @TridiagEigen.maxAbs1 K (scOfField F) v := by
   simp only [TridiagEigen.maxAbs1]
@@ -105,16 +177,51 @@ theorem maxAbs1_nonneg (v : Vec K) : 0 ≤ @TridiagEigen.maxAbs1 K (scOfField F)
       · exact hm
   exact this _ _ (abs_nonneg _)
 
-theorem compute_conj (hs : ∀ x : K, 0 ≤ F.sqrt x) (n : Nat) (h : Mat K) (r : HessEigen.Decomp K)
+theorem compute_conj (heps : 0 < F.eps) (n : Nat) (h : Mat K) (r : HessEigen.Decomp K)
     (hr : @HessEigen.compute K _ _ _ _ _ (scOfField F) n h = Res.ok r) : ConjBlocks r.evals.toList := by
   simp only [HessEigen.compute] at hr
-  split at hr
-  · cases hr
-  · rename_i s _
+  by_cases hz : @Sc.eq K (scOfField F) (@TridiagEigen.maxAbs1 K (scOfField F) h.d) (@zero K (scOfField F)) = true
+  · rw [if_pos hz] at hr
     cases hr
-    simp only [Array.toList_map, HessEigen.evalsOf]
-    exact conj_scale F _ (maxAbs1_nonneg F _) _ (extract_conj F hs _ _ _ _)
+    simp only [Array.toList_replicate]
+    have : ((@zero K (scOfField F)), (@zero K (scOfField F))) = ((0 : K), (0 : K)) := by simp [zero]
+    rw [this]; exact conj_replicate n
+  · rw [if_neg hz] at hr
+    split at hr
+    · cases hr
+    · cases hr
+      simp only [Array.toList_map, HessEigen.evalsOf]
+      have hne : @TridiagEigen.maxAbs1 K (scOfField F) h.d ≠ 0 := by
+        simpa [zero] using hz
+      have hpos : 0 < @TridiagEigen.maxAbs1 K (scOfField F) h.d := lt_of_le_of_ne (maxAbs1_nonneg F _) (Ne.symm hne)
+      exact conj_scale F _ hpos _ (extract_conj F heps _ _ _ _)
 
+/-- the dispatch of the back-substitution loop at row `n` (0-based; the loop variable of the model is `n + 1`): real branch iff the
+    emitted imaginary part is `0`, complex-pair branch iff it is negative and `n > 0`, otherwise the row is skipped -/
+theorem backSub_dispatch (size : Nat) (norm : K) (ev : Vec (K × K)) (f n : Nat) (t : Mat K) :
+    let _ : Sc K := scOfField F
+    ((HessEigen.evGet ev n).2 = 0 →
+      HessEigen.backSub size norm ev (f + 1) (n + 1) t =
+        HessEigen.backSub size norm ev f n
+          (HessEigen.realInner size n (HessEigen.evGet ev n).1 norm ev n ⟨zero, zero, n, t.set n n one⟩).t) ∧
+    ((HessEigen.evGet ev n).2 < 0 → 0 < n → ∃ t', HessEigen.backSub size norm ev (f + 1) (n + 1) t =
+        HessEigen.backSub size norm ev f (n - 1)
+          (HessEigen.cplxInner size n (HessEigen.evGet ev n).1 (HessEigen.evGet ev n).2 norm ev (n - 1) ⟨zero, zero, zero, n - 1, t'⟩).t) ∧
+    (0 < (HessEigen.evGet ev n).2 → HessEigen.backSub size norm ev (f + 1) (n + 1) t = HessEigen.backSub size norm ev f n t) := by
+  intro _
+  refine ⟨?_, ?_, ?_⟩
+  · intro h0
+    simp only [HessEigen.backSub, ScF.eq, zero, ScF.ofInt, Int.cast_zero, h0, decide_true, if_true]
+  · intro hneg hn
+    have hne : ¬ (HessEigen.evGet ev n).2 = 0 := ne_of_lt hneg
+    simp only [HessEigen.backSub, ScF.eq, ScF.lt, zero, ScF.ofInt, Int.cast_zero, hne, decide_false, Bool.false_eq_true, if_false,
+      hneg, hn, decide_true, Bool.and_self, if_true]
+    exact ⟨_, rfl⟩
+  · intro hpos
+    have hne : ¬ (HessEigen.evGet ev n).2 = 0 := ne_of_gt hpos
+    have hnl : ¬ (HessEigen.evGet ev n).2 < 0 := not_lt.mpr (le_of_lt hpos)
+    simp only [HessEigen.backSub, ScF.eq, ScF.lt, zero, ScF.ofInt, Int.cast_zero, hne, hnl, decide_false, Bool.false_eq_true, if_false,
+      Bool.false_and]
 
 open TridiagEigen in
 theorem wilkinson_spec (a b e : K) :
